@@ -81,6 +81,7 @@ func finishRun(e *Engine, results []*FnResult, ro runOpts) int {
 	nob, ndis := 0, 0
 	var solverTime float64
 	violations := 0
+	vacChecks := 0
 	absSet := map[string]bool{}
 	assumedSet := map[string]bool{}
 	var samples []any
@@ -103,6 +104,17 @@ func finishRun(e *Engine, results []*FnResult, ro runOpts) int {
 			mine++
 			oe := oblEvidence{Name: o.Name, Kind: o.Kind, Status: o.Status, Solver: o.Solver, TimeS: round3(o.TimeS), Clause: o.Text, Detail: o.Detail}
 			solverTime += o.TimeS
+			if o.Status == "discharged" && (o.Kind == "vacuity" || o.Kind == "reach") {
+				if r.Contract != nil {
+					for _, u := range r.Contract.Unreachable {
+						if strings.HasSuffix(o.Name, "reach@"+u) {
+							machinery = append(machinery, o.Name+": declared unreachable but the solver found it reachable")
+						}
+					}
+				}
+				vacChecks++
+				continue
+			}
 			if o.Status == "discharged" {
 				nob++
 				ndis++
@@ -114,11 +126,20 @@ func finishRun(e *Engine, results []*FnResult, ro runOpts) int {
 				}
 				continue
 			}
-			if o.Kind == "vacuity" {
-				machinery = append(machinery, o.Name+": "+o.Detail)
-				nob++
-				fe.Obligations++
-				obs = append(obs, oe)
+			if o.Kind == "vacuity" || o.Kind == "reach" {
+				declared := false
+				if r.Contract != nil {
+					for _, u := range r.Contract.Unreachable {
+						if strings.HasSuffix(o.Name, "reach@"+u) {
+							declared = true
+						}
+					}
+				}
+				if declared {
+					vacChecks++
+					continue
+				}
+				machinery = append(machinery, o.Name+": "+o.Detail+" (a return site or precondition is unsatisfiable: the proof would be vacuous; declare '//@ unreachable <return text>' if intended)")
 				continue
 			}
 			// known finding?
@@ -222,6 +243,7 @@ func finishRun(e *Engine, results []*FnResult, ro runOpts) int {
 		"abstractions":              abstractions,
 		"assumed_contracts":         assumed,
 		"solver_time_s":             round3(solverTime),
+		"vacuity_checks":            vacChecks,
 		"back_ends":                 "quick: z3-new first, then z3 4.8.12 and cvc5 raced on unknown; thorough: all three on every obligation",
 	}
 	if len(ro.bounded) > 0 {
